@@ -16,7 +16,8 @@ def _write_module(path, stmts):
            "  _attributes = ['x']", "  def __init__(self, key=1):", "    self.key = key",
            "  def __eq__(self, other):", "    return isinstance(other, Eq) and other.key == self.key",
            "  def __hash__(self):", "    return hash(self.key)", "",
-           "def ident(z):", "  return z", ""]
+           "def ident(z):", "  return z", "",
+           "def bump(o):", "  # a helper that itself updates the attribute of the object it is given", "  o.x += 1", "  return 1", ""]
   for k, s in enumerate(stmts):
     lines += ["def stmt_%d(a, b, t, v):" % k, "  _lock = None", "  " + s, "  return t, _lock", ""]
   with open(path, "w") as f:
@@ -153,6 +154,8 @@ def c28_statements():
     val = "(v % 3 + 1)" if o in ("//", "%", "/", "**", ">>", "<<") else "v"
     out += [("aug", "a.x %s= %s" % (o, val)), ("aug", "a.x%s=%s" % (o, val)), ("aug", "a.x  %s=  %s" % (o, val))]
   out += [("aug", "a.x += a.y"), ("aug", "a.x += b.x"), ("aug-self", "a.x += a.x")]
+  # the right-hand side calls a helper that itself makes an augmented assignment to the attribute (of another object, of the same object)
+  out += [("aug-nested", "a.x += bump(b)"), ("aug-nested", "a.x += bump(a)"), ("read-nested", "t = a.x + bump(b)"), ("set-nested", "a.x = bump(b)")]
   out += [("lock", "_, _lock = a.x")]
   return out
 
@@ -178,7 +181,10 @@ def c28_run(seed, n):
       pa.x, pa.y, pb.x = sh["ax"], sh["ay"], sh["bx"]
       rec = [kind, src, v, t, "ok", 0, 0, "", 0, 0]
       try:
-        env = {"a": pa, "b": pb, "t": t, "v": v, "ident": (lambda z: z), "_lock": None, "_": None}
+        def plain_bump(o):
+          o.x += 1
+          return 1
+        env = {"a": pa, "b": pb, "t": t, "v": v, "ident": (lambda z: z), "bump": plain_bump, "_lock": None, "_": None}
         if kind == "lock":
           exp_t = t
         else:
@@ -207,6 +213,15 @@ def c28_run(seed, n):
 
 
 # ------------------------------------------------------------------ C29
+def make_copy(obj, clone):
+  import copy
+  if not clone:
+    return copy.copy(obj)
+  new = type(obj).__new__(type(obj))
+  new.__dict__.update(obj.__dict__)
+  return new
+
+
 def c29_run(seed, n):
   rng = random.Random(seed)
   AUG = {("x", "x"): 0, ("x", "y"): 1, ("y", "x"): 2, ("y", "y"): 3}
@@ -215,7 +230,20 @@ def c29_run(seed, n):
   for _ in range(n):
     insts, ops = {}, []
     for _ in range(rng.randint(2, 8)):
-      k = rng.choice(["new", "new", "set", "set", "get", "get", "aug", "aug"])
+      k = rng.choice(["new", "new", "set", "set", "get", "get", "aug", "aug", "copy"])
+      if k == "copy" and len(insts) >= 1:
+        # another way an instance comes into being: a shallow copy of an existing one (copy.copy, or the clone idiom
+        # cls.__new__(cls) + __dict__.update); it starts with the values of the original and is independent of it from then on
+        src = rng.choice(sorted(insts))
+        nm = "%s%d" % (src[0], len(insts) + 1)
+        try:
+          insts[nm] = make_copy(insts[src], rng.random() < 0.5)
+          ops.append(["copy", nm, type(insts[nm]).__name__, "", 0, "ok", src, ""])
+        except Exception as ex:  # noqa
+          ops.append(["copy", nm, type(insts[src]).__name__, "", 0, "raised:" + type(ex).__name__, src, ""])
+        continue
+      if k == "copy":
+        k = "new"
       if k == "aug" and len(insts) >= 1:
         # `a.attr += b.attr2` on one line, a and b any two objects (possibly the same one, possibly of different classes)
         na, nb = rng.choice(sorted(insts)), rng.choice(sorted(insts))
